@@ -29,16 +29,21 @@ Section Copied.
                   forall s v, In (At s, v) (citems oc) -> mems s (kt_excluded kt) = false ->
                               exists v', attr c' s = Some v' /\ DIso h0 v (PD n W (List.length h)) h v'.
 
-  Lemma objcopied_tr : forall kt FP h W h2 W2 a a',
-      ObjCopied kt h W a a' -> St n h0 h W -> Tr FP h W h2 W2 -> incl FP W -> In a' W -> ~ In a' FP ->
+  Lemma objcopied_tr_g : forall kt FP h W h2 W2 a a',
+      ObjCopied kt h W a a' -> St n h0 h W -> Tr FP h W h2 W2 -> FPok h W FP -> In a' W -> ~ In a' FP ->
       ObjCopied kt h2 W2 a a'.
   Proof.
     intros kt FP h W h2 W2 a a' [oc [c' [Ho [Hg [Hk [Hkeys Hat]]]]]] HS HT Hi Ha Hnf.
     exists oc, c'. split; auto. split.
     - rewrite (tr_same _ _ _ _ _ HT); auto. apply (st_W _ _ _ _ HS) in Ha. lia.
     - split; auto. split; auto. intros s v Hin Hex. destruct (Hat s v Hin Hex) as [v' [H1 H2]]. exists v'. split; auto.
-      eapply diso_tr; eauto.
+      eapply diso_tr_g; eauto.
   Qed.
+
+  Lemma objcopied_tr : forall kt FP h W h2 W2 a a',
+      ObjCopied kt h W a a' -> St n h0 h W -> Tr FP h W h2 W2 -> incl FP W -> In a' W -> ~ In a' FP ->
+      ObjCopied kt h2 W2 a a'.
+  Proof. intros. eapply objcopied_tr_g; eauto. apply fpok_incl. auto. Qed.
 
   (* re-assigning an excluded attribute that the object already has *)
   Lemma objcopied_set_attr : forall kt h W a a' s v,
@@ -89,8 +94,8 @@ Section Species.
     attr_at h (r_new r) lk = Some (Ref (r_set r)) /\
     get h (r_set r) = Some (mkCell KSet items).
 
-  Lemma sprec_tr : forall FP h W h2 W2 r items,
-      SpRec h W r items -> St n h0 h W -> Tr FP h W h2 W2 -> incl FP W ->
+  Lemma sprec_tr_g : forall FP h W h2 W2 r items,
+      SpRec h W r items -> St n h0 h W -> Tr FP h W h2 W2 -> FPok h W FP ->
       ~ In (r_new r) FP -> ~ In (r_set r) FP -> SpRec h2 W2 r items.
   Proof.
     intros FP h W h2 W2 r items [H1 [H2 [H3 [H4 [H5 [H6 H7]]]]]] HS HT Hi Hn1 Hn2.
@@ -98,11 +103,16 @@ Section Species.
     assert (get h2 (r_new r) = get h (r_new r)) as E1 by (apply (tr_same _ _ _ _ _ HT); auto; lia).
     assert (get h2 (r_set r) = get h (r_set r)) as E2 by (apply (tr_same _ _ _ _ _ HT); auto; lia).
     unfold SpRec. repeat split; auto; try (apply (tr_W _ _ _ _ _ HT); auto).
-    - eapply objcopied_tr; eauto.
+    - eapply objcopied_tr_g; eauto.
     - rewrite (attr_at_agree _ _ _ _ E1). exact H5.
     - rewrite (attr_at_agree _ _ _ _ E1). exact H6.
     - rewrite E2. exact H7.
   Qed.
+
+  Lemma sprec_tr : forall FP h W h2 W2 r items,
+      SpRec h W r items -> St n h0 h W -> Tr FP h W h2 W2 -> incl FP W ->
+      ~ In (r_new r) FP -> ~ In (r_set r) FP -> SpRec h2 W2 r items.
+  Proof. intros. eapply sprec_tr_g; eauto. apply fpok_incl. auto. Qed.
 
   (* what is required of an old object of the list *)
   Record SpOld (a : addr) (oc : cell) : Prop := mkSpOld {
